@@ -221,12 +221,15 @@ SPEC = dict(
                 "ZipLongest and CrossSingleton are re-extracted from the Rust source on every run (Gen/PullTables.lean) and "
                 "the model is proved to take the same arm (K_table_matches_source). Two-level pipelines (zip(map,filter), "
                 "take(flat_map), chain(fuse,skip), zip_longest(fuse(take_while),enumerate)) are driven on the real code and in "
-                "the model through answer traces (pipeline_* theorems)."),
+                "the model through answer traces; each of the four has its composition theorem (pipeline_zip_map_filter, "
+                "pipeline_take_flatMap, pipeline_chain_fuse_skip, pipeline_zipLongest_fuse_takeWhile_enumerate); for the two whose outer "
+                "combinator demands a fused input, chain_refines_endStays / zipLongest_refines_endStays show that the answers of a "
+                "fused combinator (a script in which Ended stays) serve as well as an Ended-free script."),
     level_note=("Trusted: Lean kernel + propext/Classical.choice/Quot.sound; Pin/Context/Toggle/Meta bookkeeping erased; "
                 "usize as Nat (saturating/checked arithmetic never overflows in the model); inner iterators/streams/futures "
                 "modelled as the list / script / (pendings, output) they produce; each theorem is about one combinator over "
                 "scripted sources; pipelines are modelled by feeding a combinator the answer trace of another (a pull is used "
-                "through its answers and hints only) with two showcase composition theorems; send_sink/send_push/next "
+                "through its answers and hints only) with four composition theorems for the pipelines the harness drives; send_sink/send_push/next "
                 "are not modelled; the size-hint theorems take the inputs' hints as functions of the remaining script (HintOk), so for "
                 "pipelines the bracket of the inner combinator's hint is checked by the oracle on the real code, not composed in Lean; "
                 "harness/differ are our code."),
